@@ -38,7 +38,16 @@ func propPackages(repo, prop string) ([]string, error) {
 			}
 		}
 		if hit {
-			out = append(out, pkgPathOfFile(repo, f))
+			pp := pkgPathOfFile(repo, f)
+			dup := false
+			for _, o := range out {
+				if o == pp {
+					dup = true
+				}
+			}
+			if !dup {
+				out = append(out, pp)
+			}
 		}
 	}
 	return out, nil
